@@ -13,7 +13,7 @@ for l in sorted(open(sys.argv[1])):
     for p in parts[1:]:
         m=re.match(r'(C\d\d): violations=(\d+)\s*(.*)',p)
         if not m: continue
-        res.append((m.group(1),int(m.group(2)),[o for o in m.group(3).split() if o!='bounded:lifecycle/scoped-race']))
+        res.append((m.group(1),int(m.group(2)),m.group(3).split()))
     rows.append((name,own,res))
 out=["# Seeded changes: which check reports which change","",
 "Produced by `tools/eval_seeded.sh` + `tools/seed_results.py` (each change applied to a scratch worktree of /repo HEAD, never to /repo; the quick check of the",
